@@ -184,7 +184,8 @@ def binary_part(chk, rng):
     protodelim stream whose frames are, field for field (wall-clock fields aside), frame(pb_encode m) of the model; the
     consumer cmd/enricher reads that stream and writes as many messages with the same fields."""
     import props.c14 as c14
-    exe, enr = '/root/scratch/goflow2-c13', '/root/scratch/enricher-c13'
+    bdir = tempfile.mkdtemp(prefix='c13bin', dir='/root/scratch')     # own directory: checks may run side by side
+    exe, enr = os.path.join(bdir, 'goflow2'), os.path.join(bdir, 'enricher')
     for target, path in (('./cmd/goflow2', exe), ('./cmd/enricher', enr)):
         p = sh('go build -o %s %s' % (path, target), cwd=REPO, env=GOENV, timeout=900, check=False)
         if p.returncode != 0:
@@ -262,11 +263,8 @@ def binary_part(chk, rng):
                            messages_in=len(got), messages_out=None if g2 is None else len(g2),
                            what='cmd/enricher did not read the stream the collector wrote back into as many messages with the same fields'), {})
     finally:
-        for path in (exe, enr):
-            try:
-                os.remove(path)
-            except OSError:
-                pass
+        import shutil
+        shutil.rmtree(bdir, ignore_errors=True)
     chk.count('protodelim frames written by the goflow2 binary, compared with the model and passed through cmd/enricher', nframes)
 
 
